@@ -341,10 +341,36 @@ func checkClusterNodesParser(c *Ctx, rule string) {
 		c.Undecided(rule, "CLUSTER NODES fields", fn.Pos(), "the parser does not split lines into fields with strings.Fields")
 		return
 	}
+	// the field positions may be read by a helper that receives the split line: follow the fields value into it
+	ffn := fn
+	eachInstr(fn, func(_ *ssa.BasicBlock, _ int, in ssa.Instruction) {
+		call, ok := in.(*ssa.Call)
+		if !ok || ffn != fn {
+			return
+		}
+		g := calleeFn(call.Common())
+		if g == nil || !isModFn(g) || g.Blocks == nil {
+			return
+		}
+		for ai, a := range call.Call.Args {
+			if a != fields || ai >= len(g.Params) {
+				continue
+			}
+			indexes := false
+			for _, r := range *g.Params[ai].Referrers() {
+				if _, isIA := r.(*ssa.IndexAddr); isIA {
+					indexes = true
+				}
+			}
+			if indexes {
+				ffn, fields = g, g.Params[ai]
+			}
+		}
+	})
 	used := map[int64]string{}
 	roleIdx := map[string]map[int64]bool{}
 	var slotArgLow int64 = -1
-	eachInstr(fn, func(_ *ssa.BasicBlock, _ int, in ssa.Instruction) {
+	eachInstr(ffn, func(_ *ssa.BasicBlock, _ int, in ssa.Instruction) {
 		switch x := in.(type) {
 		case *ssa.IndexAddr:
 			if x.X != fields {
@@ -393,7 +419,7 @@ func checkClusterNodesParser(c *Ctx, rule string) {
 	}
 	// every store of a parsed column into an instance field comes from the column the format defines
 	colOf := map[string]int64{"ID": 0, "MasterID": 3}
-	eachInstr(fn, func(_ *ssa.BasicBlock, _ int, in ssa.Instruction) {
+	eachInstr(ffn, func(_ *ssa.BasicBlock, _ int, in ssa.Instruction) {
 		st, ok := in.(*ssa.Store)
 		if !ok {
 			return
@@ -432,7 +458,7 @@ func checkClusterNodesParser(c *Ctx, rule string) {
 	// which line lengths are rejected: a CLUSTER NODES line has 8 mandatory fields; the slot columns are optional - a
 	// master that owns no slot (a node that has just joined, a drained or failed-over master) has exactly 8
 	badLen, badAt := int64(-1), token.NoPos
-	eachInstr(fn, func(_ *ssa.BasicBlock, _ int, in ssa.Instruction) {
+	eachInstr(ffn, func(_ *ssa.BasicBlock, _ int, in ssa.Instruction) {
 		bo, ok := in.(*ssa.BinOp)
 		if !ok {
 			return
@@ -489,23 +515,26 @@ func checkClusterNodesParser(c *Ctx, rule string) {
 	c.Check(badLen < 0, rule, "only lines shorter than the 8 mandatory fields are rejected", badAt, "no length test rejects a line with 8 or more fields", fmt.Sprintf("a line with %d fields is rejected: a master that owns no slots (a node that has just joined, a drained or failed-over master) has exactly 8 fields, and the error fails the whole refresh - the routing table is never loaded or updated while such a node exists", badLen))
 	// only master lines get slots: the call to the slot parser is dominated by field3 == "-"
 	var slotCall *ssa.Call
-	eachInstr(fn, func(_ *ssa.BasicBlock, _ int, in ssa.Instruction) {
+	eachInstr(ffn, func(_ *ssa.BasicBlock, _ int, in ssa.Instruction) {
 		if call, ok := in.(*ssa.Call); ok && isCallToFn(call, sl) {
 			slotCall = call
 		}
 	})
 	okMaster := false
 	if slotCall != nil {
-		eachInstr(fn, func(_ *ssa.BasicBlock, _ int, in ssa.Instruction) {
+		eachInstr(ffn, func(_ *ssa.BasicBlock, _ int, in ssa.Instruction) {
 			bo, ok := in.(*ssa.BinOp)
-			if !ok || bo.Op != token.EQL {
+			if !ok || (bo.Op != token.EQL && bo.Op != token.NEQ) {
 				return
 			}
 			if s, isS := constString(bo.Y); !isS || s != "-" {
 				return
 			}
-			if condEdge(slotCall.Block(), bo, true) {
+			if condEdge(slotCall.Block(), bo, bo.Op == token.EQL) {
 				okMaster = true
+			}
+			if bo.Op != token.EQL {
+				return
 			}
 			// `isMaster := ...; if !isMaster {continue}` form: the If tests the comparison
 			for _, r := range *bo.Referrers() {
@@ -522,21 +551,26 @@ func checkClusterNodesParser(c *Ctx, rule string) {
 	// iteration deletes it from the map
 	replF := p.Field(redisPkg, "instance", "Replicas")
 	nAtt := 0
-	eachInstr(fn, func(b *ssa.BasicBlock, _ int, in ssa.Instruction) {
-		st, ok := in.(*ssa.Store)
-		if !ok {
-			return
+	for _, rfn := range append([]*ssa.Function{fn}, staticCalleesDeep(fn, 1)...) {
+		if rfn.Pkg == nil || rfn.Pkg.Pkg.Path() != modPath+"/"+redisPkg {
+			continue
 		}
-		if f, _ := fieldAddr(st.Addr); f != replF {
-			return
-		}
-		nAtt++
-		path := findPath(posOf(in), pathQuery{target: func(x ssa.Instruction) bool {
-			_, isNext := x.(*ssa.Next)
-			return isNext || isReturn(x)
-		}, avoid: func(x ssa.Instruction) bool { return isBuiltin(x, "delete") }})
-		c.Check(path == nil, rule, "replicas removed from the returned map", st.Pos(), "delete(insts, replica id) follows the attach on every path", "a replica stays in the map that fills the routing table: its (empty) slot list is harmless, but it is returned as if it were a master")
-	})
+		eachInstr(rfn, func(b *ssa.BasicBlock, _ int, in ssa.Instruction) {
+			st, ok := in.(*ssa.Store)
+			if !ok {
+				return
+			}
+			if f, _ := fieldAddr(st.Addr); f != replF {
+				return
+			}
+			nAtt++
+			path := findPath(posOf(in), pathQuery{target: func(x ssa.Instruction) bool {
+				_, isNext := x.(*ssa.Next)
+				return isNext || isReturn(x)
+			}, avoid: func(x ssa.Instruction) bool { return isBuiltin(x, "delete") }})
+			c.Check(path == nil, rule, "replicas removed from the returned map", st.Pos(), "delete(insts, replica id) follows the attach on every path", "a replica stays in the map that fills the routing table: its (empty) slot list is harmless, but it is returned as if it were a master")
+		})
+	}
 	if nAtt == 0 {
 		c.Fail(rule, "replicas attached", fn.Pos(), "replicas are never attached to their master")
 	}
@@ -556,7 +590,7 @@ func checkClusterNodesParser(c *Ctx, rule string) {
 			continue
 		}
 		isAtoi := func(v ssa.Value) bool {
-			return derives(v, func(y ssa.Value) bool { cl, ok := y.(*ssa.Call); return ok && isCallTo(cl, "strconv.Atoi") })
+			return derivesIP(v, func(y ssa.Value) bool { cl, ok := y.(*ssa.Call); return ok && isCallTo(cl, "strconv.Atoi") }, 2)
 		}
 		if !isAtoi(cmp.Y) {
 			continue
